@@ -27,7 +27,7 @@ def gen_case(rng):
         "files": {k: v.decode() for k, v in uni.files.items()},
         "trees": {d: {"/".join(k): v for k, v in e.items()} for d, e in uni.trees.items()},
         "store": in_store, "cache": in_cache, "hash_name": hash_name, "used": used,
-        "shallow": rng.random() < 0.45, "dry": rng.random() < 0.3, "local": rng.random() < 0.6,
+        "used_form": rng.choice(["list", "set", "tuple", "iter", "generator"]), "shallow": rng.random() < 0.45, "dry": rng.random() < 0.3, "local": rng.random() < 0.6,
         "read_only": rng.random() < 0.08,
     }, uni
 
@@ -56,6 +56,9 @@ def run_impl(ctx, case, uni):
         odb.read_only = True
     before = stores.listing_of(odb.path)
     used = [stores.hi(v, n) for n, v in case["used"]]
+    # `used` is declared Iterable[HashInfo]: lists, sets, tuples and one-shot iterators / generators are all valid
+    form = case.get("used_form", "list")
+    used = {"list": used, "set": set(used), "tuple": tuple(used), "iter": iter(used), "generator": (h for h in used)}[form]
     kind, val = safe_call(lambda: gc(odb, used, cache_odb=cache, shallow=case["shallow"], dry=case["dry"]),
                           expected=(ObjectDBPermissionError, FileNotFoundError))
     after = stores.listing_of(odb.path)
